@@ -152,6 +152,15 @@ class World:
                 fs["_closing"] = True
                 fs["_close_code"] = self.peer_code
                 self.log.append(("other.set_closing",))
+        # R2: while this task is suspended another task may run close() to completion - its guarantee: the session is
+        # latched closed and ITS one close frame is on the wire (e.g. the receive() this close() has just woken up
+        # re-enters close() through autoclose before this task runs again)
+        if fs["_closed"] is not True and getattr(self, "others_may_close", False):
+            if u.choose(2, "interference.closed_by_other_task"):
+                fs["_closed"] = True
+                fs["_closing"] = True
+                self.log.append(("close_frame",))
+                self.log.append(("other.closed",))
 
 
 def mk_server(u: U, w: World, **over):
@@ -208,6 +217,11 @@ def _close_common(u: U, w: World, ws, out, entry_closed, waiting_at_entry, which
         return
     if frames == 0 and not out.ok:
         return
+    if ("other.closed",) in w.log:
+        # another task closed the session while this close() was suspended: this call must then do nothing more
+        u.check(f"C13.{which}.close.yields_to_the_closer", out.ok and out.value is False and "transport.close" not in names,
+                "a close() that finds the session closed by another task when it resumes returns False and sends nothing")
+        return
     u.check(f"C13.{which}.close.latched", fs["_closed"] is True, "_closed stays set")
     # the transport is closed on every way out once the session is latched closed
     u.check(f"C13.{which}.close.transport_closed", "transport.close" in names,
@@ -235,6 +249,7 @@ def server_close(u: U):
     ws = mk_server(u, w, _closed=entry_closed, _waiting=waiting, _closing=closing,
                    _close_code=(w.peer_code if closing else None))
     u.suspend_hook = w.hook
+    w.others_may_close = True
     f = u.load(SRV, "WebSocketResponse.close", globals={"async_timeout": w.async_timeout})
     fn_id = "web_ws:WebSocketResponse.close"
     # the read loop of close(): cut - it only ends by CLOSE, timeout or an error
@@ -290,6 +305,7 @@ def client_close(u: U):
     ws = mk_client(u, w, _closed=entry_closed, _waiting=waiting, _closing=closing,
                    _close_code=(w.peer_code if closing else None))
     u.suspend_hook = w.hook
+    w.others_may_close = True
     f = u.load(CLI, "ClientWebSocketResponse.close", globals={"async_timeout": w.async_timeout})
     fn_id = "client_ws:ClientWebSocketResponse.close"
     u.loop(fn_id, 0, inv=lambda L: [("timeout_spans_the_whole_wait", w.depth == 1)])
